@@ -204,7 +204,7 @@ def _run_job(modname, subname, tier, seed, shard, nshards, outpath, journal):
             import hypothesis
             from hypothesis import HealthCheck, given, settings
             strat = sub.strategy(tier) if callable(sub.strategy) and not hasattr(sub.strategy, "example") else sub.strategy
-            per = max(1, n // nshards)
+            per = max(1, n // nshards) + (1 if shard > 0 else 0)
 
             @hypothesis.seed(derive_seed(seed, subname, shard))
             @settings(max_examples=per, database=None, deadline=None, report_multiple_bugs=False,
@@ -212,6 +212,9 @@ def _run_job(modname, subname, tier, seed, shard, nshards, outpath, journal):
                       print_blob=False)
             @given(strat)
             def test(case):
+                state["calls"] = state.get("calls", 0) + 1
+                if shard > 0 and state["calls"] == 1:
+                    return      # Hypothesis starts every run with the minimal example: shard 0 covers it
                 execute(case)
 
             try:
